@@ -86,6 +86,9 @@ public:
       C* tmp = other.obj;
       other.obj = obj;
       obj = tmp;
+      Object* tmpRefObj = other.refObj;
+      other.refObj = refObj;
+      refObj = tmpRefObj;
     }
 
   private:
